@@ -21,6 +21,7 @@ mkdir -p $VC && (cd /verif && tar cf - --exclude=.work --exclude=found --exclude
 sed -i "s#=> /repo#=> $WT#" $VC/harness/go.mod
 (cd $VC && VERIF_SEED=${VERIF_SEED:-1} ./check $ID $TIER); RC=$?
 echo "mutcheck: $ID $TIER exit=$RC"
+if [ -d $VC/found ]; then rm -rf /tmp/mutfound; mkdir -p /tmp/mutfound; cp -r $VC/found/* /tmp/mutfound/; fi
 git -C /repo worktree remove --force $WT
 rm -rf $VC
 exit $RC
